@@ -475,7 +475,10 @@ func (p *blockParser) render() {
 				// containers.
 				p.tree.closeBlocks(matchedContainers, lineNo, p.codec)
 			}
-			p.tree.paragraph = append(p.tree.paragraph, line)
+			// Leading spaces and tabs of paragraph continuation lines are not
+			// part of the content, even inside code spans or link titles:
+			// https://spec.commonmark.org/0.31.2/#example-222
+			p.tree.paragraph = append(p.tree.paragraph, strings.TrimLeft(line, " \t"))
 		}
 	}
 	p.tree.closeBlocks(0, p.lines.lastLineNo+1, p.codec)
